@@ -9,7 +9,7 @@ def run(tier, seed):
     chk = vlib.Check("C01", tier, seed)
     n = 100 if tier == "quick" else 2400
     flav = ("asan",) if tier == "quick" else ("asan", "asan", "asan-ndebug")
-    cases = sim_common.make_cases("C01", tier, seed, n, variants=(0,), fp_levels=(1, 2, 3, 2), sizes=(0, 0, 1, 0, 1) if tier == "quick" else (0, 1, 1, 2, 0), flavours=flav)
+    cases = sim_common.make_cases("C01", tier, seed, n, variants=(0,), fp_levels=(1, 2, 3, 10, 2, 10), sizes=(0, 0, 1, 0, 1) if tier == "quick" else (0, 1, 1, 2, 0), flavours=flav)
     sim_common.run_sim_cases(chk, cases, timeout=300)
     chk.rule = ("one case = (generated model, threads 1..16 incl. more threads than LPs, checkpoint interval auto/1/2/3/5/7/64, GVT period 0..100 ms, "
                 "perturbation seed, failpoint level); the model family has timestamp ties, bounded zero-delay chains, payloads 0..300 bytes, fan-out, "
